@@ -241,8 +241,13 @@ def check_C05(rep, tier, seed):
 def check_C09(rep, tier, seed):
     coq_part(rep, "C09")
     res = k3_part(rep, tier, seed)
-    direct = k3_select(res, ["result", "run", "seq_order", "clog_order"], lambda m: bool(m.get("seq")))
+    direct = k3_select(res, ["result", "run", "seq_order", "clog_order", "seq_tie"], lambda m: bool(m.get("seq")))
     report_k3(rep, "C09", res, direct, [], [])
+    if res["known"].get("C09_max_tie", 0) > 0:
+        for f in vlib.load_findings()["findings"]:
+            if f["property"] == "C09":
+                rep.known.append("%s [%d runs, e.g. %s]" % (f["what"], res["known"]["C09_max_tie"],
+                                                          res["known"].get("C09_max_tie_sample", "")[:200]))
 
 
 def check_C12(rep, tier, seed):
